@@ -131,7 +131,8 @@
 //                applied to a `&SplittableString` through its Deref<Target = str>);  `Any::from(&str)`, `String::as_str`.
 //                vstd's own: `vec![x; n]`, slices (`&mut buf[a..]`, index assignment), arrays, `Vec::default`, `Option::clone`.
 //   `#[verifier::loop_isolation(false)]` + `allow_complex_invariants` on `get_at`: its contract speaks about the INITIAL value of
-//                the `mut index` parameter, which no loop invariant can name.
+//                the `mut index` parameter, which no loop invariant can name (`locate` is hidden there and unfolded one step at
+//                a time by `lemma_locate_unfold`, which keeps the query small also on an edited body).
 // TRUSTED: nothing of its own.  `vx_unreachable` (vx/prelude.rs, R9: `panic!` = an obligation) is used by forward / to_json.
 // ------------------------------------------------------------------------------------------------------------------
 #![allow(unused_imports, unused_variables, unused_mut, dead_code, unused_parens, unused_braces, unused_assignments)]
@@ -745,6 +746,19 @@ pub open spec fn locate(c: Seq<ItemPtr>, i: int) -> Option<(int, int)>
     }
 }
 
+/// `locate`, one step (for functions that hide its definition)
+pub proof fn lemma_locate_unfold(c: Seq<ItemPtr>, i: int)
+    ensures
+        locate(c, i) == (if c.len() == 0 {
+            None
+        } else if vis(c[0]) && i < elems(c[0]).len() {
+            Some((0int, i))
+        } else {
+            lift(1, locate(c.skip(1), i - velems(c[0]).len()))
+        }),
+{
+}
+
 pub proof fn lemma_items_ok_skip(c: Seq<ItemPtr>, kind: OffsetKind, n: int)
     requires
         items_ok(c, kind),
@@ -846,11 +860,13 @@ impl Branch {
             // ... iff index < |V|
             r is None <==> index >= bview(self).len(),
     @start
+        hide(locate);
         let ghost c0 = chain(self.start);
         let ghost index0 = index;
         proof {
             lemma_locate(c0, index as int);
             assert(c0.skip(0) =~= c0);
+            lemma_locate_unfold(chain(self.start), index as int);
         }
     @loop 1
         invariant
@@ -858,6 +874,7 @@ impl Branch {
             items_ok(c0, OffsetKind::Utf16),
             walk_inv(c0, chain(ptr)),
             locate(c0, index0 as int) == lift(c0.len() - chain(ptr).len(), locate(chain(ptr), index as int)),
+            chain(ptr).len() == 0 ==> locate(chain(ptr), index as int) is None,
         ensures
             locate(c0, index0 as int) is None,
         decreases
@@ -870,13 +887,11 @@ impl Branch {
             assert(chain(ptr).skip(1) =~= chain(item.right));
             assert(c0.skip(k).skip(1) =~= c0.skip(k + 1));
             assert(item_ok(c0[k], OffsetKind::Utf16));
+            lemma_locate_unfold(chain(ptr), index as int);
         }
-    @before 1 `stmt:return`
+    @loopend 1
         proof {
-            assert(locate(chain(ptr), index as int) == Some((0int, index as int)));
-            let k = c0.len() - chain(ptr).len();
-            assert(locate(c0, index0 as int) == Some((k, index as int)));
-            assert(c0[k] == item);
+            lemma_locate_unfold(chain(ptr), index as int);
         }
     @*/
 
@@ -991,6 +1006,69 @@ impl BlockIter {
     /// number of elements of V that are NOT ahead of it.  Under `wf` it is the field `index`.
     pub open spec fn pos(&self) -> int {
         bview(self.branch).len() - self.ahead().len()
+    }
+}
+
+// ---- sequence facts, proved once in a small context (the big lemmas below CALL them instead of asserting them inline)
+pub proof fn lemma_skip_skip<A>(s: Seq<A>, a: int, b: int)
+    requires
+        0 <= a,
+        0 <= b,
+        a + b <= s.len(),
+    ensures
+        s.skip(a).skip(b) == s.skip(a + b),
+{
+    assert(s.skip(a).skip(b) =~= s.skip(a + b));
+}
+
+pub proof fn lemma_add_skip<A>(x: Seq<A>, y: Seq<A>, k: int)
+    requires
+        0 <= k <= x.len(),
+    ensures
+        (x + y).skip(k) == x.skip(k) + y,
+        (x + y).skip(x.len() as int) == y,
+        (x + y).len() == x.len() + y.len(),
+{
+    assert((x + y).skip(k) =~= x.skip(k) + y);
+    assert((x + y).skip(x.len() as int) =~= y);
+}
+
+pub proof fn lemma_skip_all<A>(s: Seq<A>)
+    ensures
+        s.skip(s.len() as int) == Seq::<A>::empty(),
+        s.skip(0) == s,
+{
+    assert(s.skip(s.len() as int) =~= Seq::<A>::empty());
+    assert(s.skip(0) =~= s);
+}
+
+/// the sequence part of `lemma_fwd_finish`: b0 = the elements from the beginning of the item under the cursor, a0 = those ahead of
+/// the cursor (rel0 further), vv = V, p0 the position; after the walk `fin` is ahead
+pub proof fn lemma_fwd_seq<A>(b0: Seq<A>, a0: Seq<A>, vv: Seq<A>, fin: Seq<A>, p0: int, rel0: int, n0: int, len: int)
+    requires
+        0 <= rel0 <= b0.len(),
+        0 <= n0,
+        a0 == b0.skip(rel0),
+        fin == b0.skip(min(n0 + rel0, b0.len() as int)),
+        len == n0 + rel0 - min(n0 + rel0, b0.len() as int),
+    ensures
+        ({
+            let m = min(n0, a0.len() as int);
+            &&& 0 <= m <= a0.len()
+            &&& n0 - len == m
+            &&& fin == a0.skip(m)
+            &&& fin.len() == a0.len() - m
+            &&& 0 <= p0 <= vv.len() && vv.skip(p0) == a0 ==> p0 + m <= vv.len() && vv.skip(p0 + m) == a0.skip(m) && p0 + m == min(p0 + n0, vv.len() as int)
+        }),
+{
+    let mm = min(n0 + rel0, b0.len() as int);
+    let m = min(n0, a0.len() as int);
+    assert(a0.len() == b0.len() - rel0);
+    assert(m == mm - rel0);
+    lemma_skip_skip(b0, rel0, m);
+    if 0 <= p0 <= vv.len() && vv.skip(p0) == a0 {
+        assert(a0.len() == vv.len() - p0);
+        lemma_skip_skip(vv, p0, m);
     }
 }
 
@@ -1145,6 +1223,8 @@ pub proof fn theorem_index_to_position(it: &BlockIter, kind: OffsetKind)
                 && bview(it.branch)[it.index as int] == elems(it.next_item.unwrap())[it.rel as int]
         }),
 {
+    hide(locate);
+    hide(view);
     let c0 = chain(it.branch.start);
     let p = it.next_item.unwrap();
     let k = c0.len() - chain(it.next_item).len();
@@ -1165,8 +1245,13 @@ pub proof fn theorem_index_to_position(it: &BlockIter, kind: OffsetKind)
 /// i-th call, `outs[i]` what that call returns, and the call after the last of them returns None (nothing is pending)
 pub open spec fn is_trace(states: Seq<Seq<Out>>, outs: Seq<Out>) -> bool {
     &&& states.len() == outs.len() + 1
-    &&& forall|i: int| 0 <= i < outs.len() ==> (#[trigger] states[i]).len() > 0 && outs[i] == states[i][0] && states[i + 1] == states[i].skip(1)
+    &&& forall|i: int| 0 <= i < outs.len() ==> #[trigger] trace_step(states, outs, i)
     &&& states.last().len() == 0
+}
+
+/// the i-th call of `next`: something is pending, its first element is handed out, the rest stays pending
+pub open spec fn trace_step(states: Seq<Seq<Out>>, outs: Seq<Out>, i: int) -> bool {
+    states[i].len() > 0 && outs[i] == states[i][0] && states[i + 1] == states[i].skip(1)
 }
 
 /// DRAIN LEMMA: iterating to the end yields exactly what was pending at the beginning, in order
@@ -1180,15 +1265,16 @@ pub proof fn lemma_drain(states: Seq<Seq<Out>>, outs: Seq<Out>)
     if outs.len() > 0 {
         let st = states.skip(1);
         let ou = outs.skip(1);
-        assert forall|i: int| 0 <= i < ou.len() implies (#[trigger] st[i]).len() > 0 && ou[i] == st[i][0] && st[i + 1] == st[i].skip(1) by {
+        assert(trace_step(states, outs, 0));
+        assert forall|i: int| 0 <= i < ou.len() implies #[trigger] trace_step(st, ou, i) by {
+            assert(trace_step(states, outs, i + 1));
+            assert(ou[i] == outs[i + 1]);
             assert(st[i] == states[i + 1]);
             assert(st[i + 1] == states[i + 2]);
-            assert(ou[i] == outs[i + 1]);
         }
         assert(st.last() == states.last());
         lemma_drain(st, ou);
         assert(st[0] == states[1]);
-        assert(states[0].len() > 0 && outs[0] == states[0][0] && states[1] == states[0].skip(1));
         assert(outs =~= seq![outs[0]] + ou);
         assert(states[0] =~= seq![states[0][0]] + states[0].skip(1));
     }
@@ -1432,19 +1518,69 @@ pub proof fn lemma_fwd_step(b0: Seq<Out>, n: int, c0: Seq<ItemPtr>, i: ItemPtr, 
     lemma_view_len(chain(i.right));
     let w = view(chain(Some(i)));
     let rest = view(chain(i.right));
-    assert(w =~= velems(i) + rest);
-    assert(w =~= b0.skip(n - len));
+    assert(w == velems(i) + rest);
+    assert(w == b0.skip(n - len));
     if vis(i) && len > 0 && clen(i, kind) > len {
-        assert(w.skip(len) =~= b0.skip(n));
-        assert(n <= b0.len());
+        lemma_skip_skip(b0, n - len, len);
     } else {
         let u = if vis(i) && len > 0 { clen(i, kind) } else { 0 };
         assert(u == velems(i).len());
-        assert(b0.skip(n - len).skip(u) =~= b0.skip(n - len + u));
-        assert(w.skip(u) =~= rest);
+        lemma_skip_skip(b0, n - len, u);
+        lemma_add_skip(velems(i), rest, u);
         if i.right is None {
             assert(rest =~= Seq::<Out>::empty());
         }
+    }
+}
+
+/// the loop of `try_forward` has been left (`fwd_done`): what that means for the `BlockIter` that started at `o`
+pub proof fn lemma_fwd_finish(o: &BlockIter, n0: int, item: Option<ItemPtr>, len: int, rel: int, re: bool, kind: OffsetKind)
+    requires
+        o.cwf(kind),
+        o.next_item is Some,
+        0 <= n0,
+        fwd_done(ahead_of(o.next_item, 0, o.reached_end), n0 + o.rel, item, len, rel, re, kind),
+    ensures
+        ({
+            let a0 = o.ahead();
+            let m = min(n0, a0.len() as int);
+            &&& 0 <= m
+            &&& 0 <= len
+            &&& o.index + n0 - len == o.index + m
+            &&& ahead_of(item, rel, re) =~= a0.skip(m)
+            &&& rel <= o.index + m
+            &&& rel <= n0 + o.rel
+            &&& cursor_ok(item, rel, re, kind)
+            &&& item is Some
+            &&& !re ==> vis(item.unwrap()) && rel < elems(item.unwrap()).len()
+            &&& n0 >= a0.len() ==> re
+            &&& o.wf(kind) ==> o.index + m <= bview(o.branch).len() && bview(o.branch).skip(o.index + m) =~= a0.skip(m)
+                && o.index + m == min(o.index + n0, bview(o.branch).len() as int)
+        }),
+{
+    let b0 = ahead_of(o.next_item, 0, o.reached_end);
+    let a0 = o.ahead();
+    let rel0 = o.rel as int;
+    let vv = bview(o.branch);
+    let p0 = o.index as int;
+    let fin = ahead_of(item, rel, re);
+    lemma_view_len(chain(o.next_item));
+    if !o.reached_end {
+        lemma_view_step(o.next_item.unwrap());
+        lemma_view_len(chain(o.next_item.unwrap().right));
+        lemma_add_skip(elems(o.next_item.unwrap()), view(chain(o.next_item.unwrap().right)), 0);
+        assert(b0 == view(chain(o.next_item)));
+        assert(0 <= rel0 <= b0.len());
+    } else {
+        lemma_skip_all(b0);
+    }
+    assert(a0 == b0.skip(rel0));
+    lemma_fwd_seq(b0, a0, vv, fin, p0, rel0, n0, len);
+    if !re {
+        lemma_view_step(item.unwrap());
+        lemma_view_len(chain(item.unwrap().right));
+        lemma_add_skip(elems(item.unwrap()), view(chain(item.unwrap().right)), rel);
+        assert(fin.len() > 0);
     }
 }
 
@@ -1556,17 +1692,11 @@ impl BlockIter {
         let ghost a0 = self.ahead();
         let ghost b0 = ahead_of(self.next_item, 0, self.reached_end);
         let ghost m0 = cursor_measure(self.next_item, self.reached_end);
-        proof {
-            lemma_view_len(chain(self.next_item));
-        }
     @before 1 `stmt:while`
         let ghost nn = len as int;
         proof {
             assert(nn == n0 + rel0);
             assert(b0.skip(0) =~= b0);
-            if !re0 {
-                lemma_view_step(ni0.unwrap());
-            }
         }
     @loop 1
         invariant_except_break
@@ -1592,12 +1722,7 @@ impl BlockIter {
         }
     @afterloop 1
         proof {
-            let m = min(nn, b0.len() as int);
-            assert(a0 =~= b0.skip(rel0));
-            assert(b0.skip(rel0).skip(m - rel0) =~= b0.skip(m));
-            if old(self).wf(kind) {
-                assert(vv.skip(p0).skip(m - rel0) =~= vv.skip(p0 + m - rel0));
-            }
+            lemma_fwd_finish(old(self), n0, item, len as int, self.rel as int, self.reached_end, kind);
         }
     @*/
 }
